@@ -471,4 +471,4 @@ def stmt_text(n):
         return 'def ' + s.name
     if isinstance(s, (ast.Try, ast.With)):
         return type(s).__name__.lower()
-    return unparse(s)
+    return unparse(s)[:240]
